@@ -111,9 +111,9 @@ def meet_label_uses(s, enc):
 def rule_affine(ctx):
     R = "C08.AFFINE"
     for q, (pp, dp) in sorted(AFFINE_SPEC.items()):
-        f = ctx.program.func(q, R)
         if symeval._resigned(ctx.program, q):
             continue  # a private helper with a new signature is evaluated inside its callers, which are typed themselves
+        f = ctx.program.func(q, R)
         for p in pp + dp:
             need(p in f.all_params, R, "%s has no parameter %s" % (q, p))
         s = ctx.S.get(q)
@@ -315,9 +315,9 @@ def _positional_uses(t, target):
 def rule_orderins(ctx):
     R = "C08.ORDERINS"
     for q, params in ORDER_SPEC:
-        f = ctx.program.func(q, R)
         if symeval._resigned(ctx.program, q):
             continue
+        f = ctx.program.func(q, R)
         s = ctx.S.get(q)
         for p in params:
             need(p in f.all_params, R, "%s has no parameter %s" % (q, p))
